@@ -4,10 +4,54 @@ import json, os
 V = os.path.dirname(os.path.dirname(os.path.abspath(__file__)))
 CHECKS = {
  # id: (category, level text, level note, technique, design_ref)
+ "C04": ("model_checking",
+   "Bounded exhaustive input enumeration on the real tokenizers: every string up to length 4-5 (quick) / 6-8 (thorough, 170M inputs) over per-tokenizer alphabets with one representative of every character class that selects a different state or look-ahead branch, options off; oracle: values concatenate to the input, tokens non-empty, single trailing Eof. Exhaustive in the bound; push-back and end-of-input defects are short-input phenomena.",
+   "One representative per character class; termination by a deterministic scanner step budget; inputs longer than 4 share one tokenizer per worker and are re-run on a fresh instance before being reported.",
+   "bounded exhaustive input enumeration vs losslessness oracle", "§3 C04"),
+ "C05": ("model_checking",
+   "Explicit operation histories on one real instance of each of 12 object kinds: all ordered pairs (quick) / triples (thorough) of pool inputs, all aborted iterations followed by every input, all {0,1,2}^m has-next patterns; after every step the full observation must equal a fresh instance's.",
+   "Outcomes identical on the fresh instance (including panics) are left to C03.",
+   "exhaustive history exploration (replay on fresh instance) with fresh-instance differential oracle", "§3 C05"),
+ "C06": ("model_checking",
+   "Full matrix over a boundary pool (66 values quick / 103 thorough): all ordered pairs x 19 binary operators + all values x 2 unary operators x both managers against a reference operator table; relational laws on every ordered pair; operands unchanged.",
+   "Convert of the manager under test supplies the converted second operand (C07 decides Convert); first-operand types outside the statement's list are only required not to crash and to return exactly one of result/error.",
+   "exhaustive value-matrix enumeration vs reference operator table", "§3 C06"),
+ "C07": ("model_checking",
+   "Full matrix: every pool value x 11 target types x both managers against a reference conversion table, plus every two-step chain of the lossless table for every pool value in exact range.",
+   "String parsing/formatting is done by the external commons converters (trusted base).",
+   "exhaustive value x type matrix and two-step chains vs reference conversion table", "§3 C07"),
  "C11": ("model_checking",
    "Explicit-state BFS of the real StringScanner: the complete reachable state graph of every content over {x,LF,CR} up to the length bound under {Read,Unread,UnreadMany(2),UnreadMany(3),Reset}; every state compared with a cursor model, an independent line/column rule and a fresh forward scan of the real scanner. Exhaustive within the bound, which is the right level for a 4-field object whose graph closes after len+2 states.",
    "Trusted: Go reflection reads the unexported position field for the state key only (oracle uses observable results); peek law asserted where a next character exists.",
    "explicit-state BFS over operation histories (replay on fresh instance) vs reference cursor model", "§3 C11"),
+ "C12": ("model_checking",
+   "4 tokenizers x every string up to length 4-5 (quick) / 5-6 (thorough) over alphabets with LF, CR, quote, comment opener, multi-character symbol and unknown character x 11 (quick) / all 128 (thorough) option sets; every token's position compared with the forward-scan coordinates of its first character, tokens under options aligned with their originals through the C15 transformer.",
+   "Assumes C04 and C15 hold for the (input, options) pair (otherwise skipped and counted); coordinates as defined by C11.",
+   "bounded exhaustive input x configuration enumeration vs coordinate rule model", "§3 C12"),
+ "C13": ("model_checking",
+   "Generator-as-model: every sequence of <=3 (quick) / <=4 (thorough, 56M) class-tagged lexemes from pools of 53/67 lexemes, blank-separated and abutting where a conservative boundary table allows; the real tokenizer must return exactly those lexemes and classes.",
+   "The abutting table only skips sequences, it never predicts a segmentation.",
+   "bounded exhaustive sentence generation from the lexical grammar, replayed against the tokenizer", "§3 C13"),
+ "C14": ("model_checking",
+   "Every string up to length 5 (quick) / 7 (thorough, 43M) over {quote, other quote, 1-4 byte characters, space, LF} x 3 quote characters x 3 quote states: decode total, decode(encode(s))=s, and the encoding in a stream read back as one token leaving the scanner at the tail.",
+   "One representative per UTF-8 width.",
+   "bounded exhaustive input enumeration vs inverse/totality oracle", "§3 C14"),
+ "C15": ("model_checking",
+   "4 tokenizers x every string up to length 4-5 (quick) / 5-6 (thorough) x all 128 option sets (142M tokenizations thorough): stream(opts) == T(opts, stream(no options)) for a reference transformer that only drops or rewrites whole tokens.",
+   "Assumes C04 for the input (otherwise skipped and counted); termination by scanner step budget.",
+   "exhaustive configuration x input enumeration vs reference stream transformer", "§3 C15"),
+ "C16": ("model_checking",
+   "Symbol sets = subsets of the 14 strings of length 1..3 over {a,b} (|S|<=3 quick, all 16384 thorough), every registration order for small sets, every pair (triple) of reads over all inputs up to length 3-4, and read-all/Add/read-all monotonicity; each read compared with 'longest registered prefix else one character' for text, type and consumed length; also over a non-Latin alphabet.",
+   "Trees are rebuilt for every read sequence.",
+   "exhaustive configuration x history exploration vs longest-prefix reference", "§3 C16"),
+ "C17": ("model_checking",
+   "All histories of AddInterval/AddDefaultInterval/Clear over the boundary endpoints x {A,B,nil} to depth 2 (quick) / 3 (thorough, 681k un-merged) plus probe-vector BFS to depth 3/5, each compared probe by probe with an interval-list model by reference identity; derived checks through a real tokenizer's dispatch table and the word/whitespace range toggles.",
+   "Probe-vector canonicalisation argument in DESIGN.md; the un-merged enumeration does not rely on it.",
+   "exhaustive history enumeration + explicit-state BFS vs interval-list model", "§3 C17"),
+ "C20": ("model_checking",
+   "Every host value of every listed Go type x 5 construction paths vs a reference type mapping; Equals over the full pool x pool; every history of length <=4 (quick) / <=5 (thorough, 580k) over 14 operations on two variants and a caller-owned list against a value model in which every variant owns its list.",
+   "After Assign of an array the model does not predict sharing; Equals on same-instant date-times in different zones and on uncomparable payloads only needs symmetry and no panic.",
+   "exhaustive input enumeration + operation-history exploration vs value model", "§3 C20"),
 }
 NOT_YET = "check not built yet in this revision (work in progress; planned in DESIGN.md §3)"
 ALL = ["C%02d" % i for i in range(1, 21)]
